@@ -49,6 +49,7 @@ class Job:
     overflow: bool = True          # signed-overflow check (off for language int arithmetic)
     remove_bodies: list = field(default_factory=list)
     unwinding_assertions: bool = True
+    extra_cflags: list = field(default_factory=list)   # extra goto-cc flags for the harness TU
     gen_bodies: bool = False       # every function left without a body returns an arbitrary value (environment)
     src_flags: dict = field(default_factory=dict)     # {repo-relative source: [extra goto-cc flags]} (e.g. -include a modelling header)
     src_remove_bodies: list = field(default_factory=list)  # removed from the real TUs before linking (harness supplies the body)
@@ -155,7 +156,7 @@ def build_job(job):
         objs.append(o)
     safe = re.sub(r'[^A-Za-z0-9_.-]', '_', job.name)
     gb = os.path.join(scratch(), 'job_%s.gb' % safe)
-    cmd = (['goto-cc'] + BASE_CFLAGS + dflags(job.src_defines) + dflags(job.defines) + incflags(job)
+    cmd = (['goto-cc'] + BASE_CFLAGS + dflags(job.src_defines) + dflags(job.defines) + list(job.extra_cflags) + incflags(job)
            + [harness_path(job)] + objs + ['-o', gb])
     rc, so, se = sh(cmd, timeout=300)
     if rc != 0:
@@ -589,7 +590,11 @@ def finish(pid, tier, level, jobs, meta, t0, custom_replay=None, extra_cov=None,
         else:
             mismatches.append((j, f, key, outdir, why))
     for v in (extra_violations or []):
-        violations.append(v)
+        # v = (name, failed-dict, key, outdir, why); known findings apply to these as well
+        key = '%s::%s' % (v[0], re.sub(r'\s+', '_', v[1]['description'].strip()))
+        hit = [k for k in known if fnmatch.fnmatch(key, k[0])]
+        if hit: known_hits.append((hit[0], key))
+        else: violations.append(v)
 
     proved = [j for j in jobs if j.status == 'proved']
     groups = {}
